@@ -73,7 +73,7 @@ class Anchors:
         best = None
         for m in self.cls.methods.values():
             for n in nodes_in(m, ast.If):
-                t = self.ctx.X.at(m, n.test)
+                t = self.ctx.X.value_at(m, n.test)
                 def is_key_cmp(s, m=m):
                     if s[0] == "call" and s[1][0] == "global" and s[1][1] in ("numpy.allclose", "numpy.array_equal", "numpy.array_equiv", "numpy.isclose", "numpy.equal"):
                         args = s[2]
@@ -285,7 +285,7 @@ def c07_2(ctx: Ctx) -> RuleResult:
                 for t in x.targets:
                     if isinstance(t, ast.Attribute) and isinstance(t.value, ast.Name) and t.value.id == selfname:
                         reset_fields.add(t.attr)
-    t = ctx.X.at(V, node.test)
+    t = ctx.X.value_at(V, node.test)
     key_fields = {s[2] for s in subterms(t) if s[0] == "attr" and s[1][0] == "param" and s[1][2] == selfname and s[2] in A.cache_fields}
     for fld in sorted(A.cache_fields):
         ok = fld in reset_fields
@@ -549,7 +549,7 @@ def c07_4(ctx: Ctx) -> RuleResult:
     for call in calls_in(A.start):
         for kw in call.keywords:
             if kw.arg == "jac" and isinstance(kw.value, ast.IfExp):
-                t = ctx.X.at(A.start, kw.value.test)
+                t = ctx.X.value_at(A.start, kw.value.test)
                 for s in subterms(t):
                     if s[0] == "cmp" and s[1] in ("in", "not in") and s[3][0] == "global":
                         nograd_q = s[3][1]
@@ -805,7 +805,7 @@ def _guarded_by_point_check(ctx: Ctx, caller: Func, call: ast.Call, fld: str) ->
     cur, child = parent(call), call
     while cur is not None and cur is not caller.node:
         if isinstance(cur, ast.If) and any(child is s or child in ast.walk(s) for s in cur.body):
-            t = ctx.X.at(caller, cur.test)
+            t = ctx.X.value_at(caller, cur.test)
             conj = list(t[2]) if t[0] == "bool" and t[1] == "and" else [t]
             not_none = any(d[0] == "cmp" and d[1] == "is not" and d[3] == ("const", None) and d[2][0] == "attr" and d[2][2] == fld for d in conj)
             cmp = [d for d in conj if d[0] == "call" and d[1][0] == "global" and d[1][1] in ("numpy.allclose", "numpy.array_equal")]
